@@ -7,6 +7,7 @@ import (
 	"github.com/DrmagicE/gmqtt/persistence/queue"
 	mem_queue "github.com/DrmagicE/gmqtt/persistence/queue/mem"
 	"github.com/DrmagicE/gmqtt/server"
+	"github.com/DrmagicE/gmqtt/topicalias/fifo"
 )
 
 func ZZ_C13_SizeOutResume() {
@@ -15,4 +16,13 @@ func ZZ_C13_SizeOutResume() {
 		return q
 	}
 	server.ZZC13SizeOutResume()
+}
+
+func ZZ_C13_AliasSize() {
+	server.ZZMemQueue = func(max int, n queue.Notifier) queue.Store {
+		q, _ := mem_queue.New(mem_queue.Options{MaxQueuedMsg: max, ClientID: "c1", DefaultNotifier: n})
+		return q
+	}
+	server.ZZFifoAlias = fifo.New
+	server.ZZC13AliasSize()
 }
